@@ -181,7 +181,16 @@ func (r *Report) finish(workdir string) int {
 	replayDir := filepath.Join(*flagVerif, "replay")
 	// vacuity
 	vacuous := []string{}
+	failedFn := map[string]bool{}
+	for _, cr := range r.Results {
+		if !cr.Check.ExpectSat && cr.Status != "discharged" && cr.Status != "trivial" {
+			failedFn[cr.Check.Fn] = true
+		}
+	}
 	for _, fi := range r.Funcs {
+		if failedFn[fi.Key] {
+			continue // a failed goal is assumed afterwards; covers below it mean nothing
+		}
 		if preCover[fi.Key] == "vacuous" {
 			vacuous = append(vacuous, fi.Key+": contradictory requires")
 		}
@@ -253,7 +262,12 @@ func (r *Report) finish(workdir string) int {
 			exit = 1
 		}
 	}
+	seenErr := map[string]bool{}
 	for _, e := range r.EngineErrors {
+		if seenErr[e.Fn+"|"+e.Msg] {
+			continue
+		}
+		seenErr[e.Fn+"|"+e.Msg] = true
 		for _, p := range e.Props {
 			if prop != "" && p != prop {
 				continue
